@@ -299,15 +299,34 @@ def run(ctx):
     chosen = [s for s in sents if len(s["entries"]) <= 1] + [s for s in sents if len(s["entries"]) == 2 and (not q or rng.random() < 0.25)]
     jobs = [(tuple(s["toks"]), s["entries"]) for s in chosen]
     # arbitrary literals (ending in an escaped quote, with braces / semicolons / escapes) instead of the generator's "vN"
-    nasty = ['"say \\"hi\\""', '"a\\"b"', '"x;y{z}#w"', '"\\\\"', '"\\x41\\u0042\\n"', '""', '"it\'s"', '"\\"quoted\\""', '"ends with backslash\\\\"']
+    nasty = ['"say \\"hi\\""', '"a\\"b"', '"x;y{z}#w"', '"\\\\"', '"\\x41\\u0042\\n"', '""', '"it\'s"', '"\\"quoted\\""', '"ends with backslash\\\\"',
+             # raw control characters inside a literal (a literal may span lines; CR LF stays CR LF)
+             '"a\r\nb"', '"line1\nline2"', '"\r"', '"tab\there"', '"\r\n"']
+    # names for named variants: everything but exactly "default" is a variant of its own and appears in the path
+    vnames = ['"default-2"', '"nondefault"', '"my default profile"', '"Default"', '"DEFAULT"', '"defaul"', '"variant x"']
     for s_ in rng.sample(chosen, min(len(chosen), 200 if q else 2000)):
         toks = list(s_["toks"])
         variant_lits = {toks[i] for i in range(len(toks) - 1) if toks[i + 1] == "{"}
         sub = {t: rng.choice(nasty) for t in toks if t.startswith('"v') and t not in variant_lits}
-        if not sub:
+        vsub = {t: rng.choice(vnames) for t in variant_lits if t.startswith('"v')} if rng.random() < 0.5 else {}
+        if len(set(vsub.values())) < len(vsub):
+            vsub = {}  # two variants of one block must keep different names
+        if not sub and not vsub:
             continue
-        ents = [dict(e, args=[sub.get(a, a) for a in e["args"]]) for e in s_["entries"]]
-        jobs.append((tuple(sub.get(t, t) for t in toks), ents))
+        ents = [dict(e, args=[sub.get(a, a) for a in e["args"]], path=[vsub.get(c, c) for c in e["path"]]) for e in s_["entries"]]
+        jobs.append((tuple(vsub.get(t, sub.get(t, t)) if (t in variant_lits and i + 1 < len(toks) and toks[i + 1] == "{") else sub.get(t, t) for i, t in enumerate(toks)), ents))
+    # every sentence with a named variant once more under a name that merely contains / resembles "default"
+    k = 0
+    for s_ in chosen:
+        toks = list(s_["toks"])
+        vl = [i for i in range(len(toks) - 1) if toks[i + 1] == "{" and toks[i].startswith('"v')]
+        if len(vl) != 1 or (q and k >= 120):
+            continue
+        name = vnames[k % len(vnames)]
+        k += 1
+        old_name = toks[vl[0]]
+        toks[vl[0]] = name
+        jobs.append((tuple(toks), [dict(e, path=[name if c == old_name else c for c in e["path"]]) for e in s_["entries"]]))
     for _ in range(100 if q else 1500):
         parts = [rng.choice(chosen) for _ in range(rng.choice([2, 3, 4]))]
         jobs.append((tuple(t for p in parts for t in p["toks"]), [e for p in parts for e in p["entries"]]))
